@@ -247,6 +247,7 @@ def r4_grid_coordinates(ctx):
 
 
 def check(ctx):
+    K.point_order_contract(ctx, "R1")
     r1_kneighbors(ctx)
     r2_median(ctx)
     r3_distance_mask(ctx)
